@@ -132,6 +132,13 @@ Definition mtmeth_fns : program :=
     {| fn_name := "ProxyT::migrate_method"; fn_params := ["self"; "args"]; fn_consts := [];
      fn_body := (EBlock [SLet (PVar "msg") (ECon "MigrateMsg::new" [(EVar "args")]); STail (ECall "MigrateProxy::new" [(EField (EVar "self") "contract_addr"); (EVar "msg"); (EField (EVar "self") "app")])]) |} ].
 
+(* sylvia-derive: decision logic of the macro - EntryPoints::emit (which entry points exist) and get_entry_point *)
+Definition macro_fns : program :=
+  [ {| fn_name := "EntryPoints::emit"; fn_params := ["self"]; fn_consts := [];
+     fn_body := (EBlock [SLet (PRec "EntryPoints" [("source", (PVar "source")); ("reply", (PVar "reply")); ("override_entry_points", (PVar "override_entry_points")); ("generics", (PVar "generics")); ("where_clause", (PVar "where_clause"))]) (EVar "self"); SLet (PVar "entry_points") (EBlock [SLet (PVar "map_src1") (EArr [(ECon "MsgType::Instantiate" []); (ECon "MsgType::Exec" []); (ECon "MsgType::Query" []); (ECon "MsgType::Sudo" [])]); SLet (PVar "map_acc1") (EArr []); SExpr (EFor "map_i1" (EConst (VNat 0)) (ECall "len" [EVar "map_src1"]) (EBlock [SLet (PVar "msg_ty") (EIndex (EVar "map_src1") (EVar "map_i1")); STail (EAssign "map_acc1" [] (ECall "push" [EVar "map_acc1"; (EMatch (ECall "get_entry_point" [(EVar "override_entry_points"); (EVar "msg_ty")]) [((PCon "Some" [PWild]), (ECon "quote" [(EConst (VStr ""))])); ((PCon "None" []), (ECall "extern::emit_default_entry_point" [(EVar "self"); (EVar "msg_ty")]))])]))])); STail (EVar "map_acc1")]); SLet (PVar "is_migrate") (ECall "is_some" [(ECall "extern::get_only_variant" [(ECall "extern::MsgVariants::new" [(ECall "extern::as_variants" [(EVar "source")]); (ECon "MsgType::Migrate" []); (EVar "generics"); (EVar "where_clause")])])]); SLet (PVar "migrate_not_overridden") (ECall "is_none" [(ECall "get_entry_point" [(EVar "override_entry_points"); (ECon "MsgType::Migrate" [])])]); SLet (PVar "migrate") (EIf (EBin "&&" (EVar "migrate_not_overridden") (EVar "is_migrate")) (EBlock [STail (ECall "extern::emit_default_entry_point" [(EVar "self"); (ECon "MsgType::Migrate" [])])]) (EBlock [STail (ECon "quote" [(EConst (VStr ""))])])); SLet (PVar "reply_ep") (EMatch (EMatch (ECall "get_entry_point" [(EVar "override_entry_points"); (ECon "MsgType::Reply" [])]) [(PCon "Ok" [PVar "hof_v2"], ECon "Ok" [EBlock [SLet (PWild) (EVar "hof_v2"); STail (ECon "quote" [(EConst (VStr ""))])]]); (PCon "Err" [PVar "hof_v2"], ECon "Err" [EVar "hof_v2"]); (PCon "Some" [PVar "hof_v2"], ECon "Some" [EBlock [SLet (PWild) (EVar "hof_v2"); STail (ECon "quote" [(EConst (VStr ""))])]]); (PCon "None" [], ECon "None" [])]) [(PCon "Some" [PVar "unwrap_v"], EVar "unwrap_v"); (PCon "None" [], (EBlock [STail (EIf (ECall "is_some" [(EVar "reply")]) (EBlock [STail (ECall "extern::emit_default_entry_point" [(EVar "self"); (ECon "MsgType::Reply" [])])]) (EBlock [STail (ECon "quote" [(EConst (VStr ""))])]))]))]); STail (ECon "quote" [(EConst (VStr "pub mod entry_points { use super ::*; # (# entry_points) * # migrate # reply_ep }")); (EVar "entry_points"); (EVar "migrate"); (EVar "reply_ep")])]) |};
+    {| fn_name := "get_entry_point"; fn_params := ["self"; "ty"]; fn_consts := [];
+     fn_body := (EBlock [STail (EBlock [SLet (PVar "find_src1") (EVar "self"); SLet (PVar "find_res1") (ECon "None" []); SExpr (EFor "find_i1" (EConst (VNat 0)) (ECall "len" [EVar "find_src1"]) (EBlock [STail (EIfLet (PCon "None" []) (EVar "find_res1") (EBlock [SLet (PVar "entry_point") (EIndex (EVar "find_src1") (EVar "find_i1")); STail (EIf (EBin "==" (EField (EVar "entry_point") "msg_type") (EVar "ty")) (EAssign "find_res1" [] (ECon "Some" [EVar "entry_point"])) (EConst VUnit))]) (EConst VUnit))])); STail (EVar "find_res1")])]) |} ].
+
 (* sylvia/src/into_response.rs: IntoMsg / IntoResponse; `enabled_features` = the cargo features switched on *)
 Definition resp_program (enabled_features : list string) : program :=
   [ {| fn_name := "SubMsg::into_msg"; fn_params := ["self"]; fn_consts := [];
